@@ -449,3 +449,4 @@ not_reproduced()
 # level text addendum (cases added after the seeded-change rounds)
 LEVEL_TEXT = LEVEL_TEXT + " Also: runs of adjacent bad channels, int16 data (the repaired channel stays within its contributors' range), scipy's tie rule for the per-batch mode."
 LEVEL_TEXT = LEVEL_TEXT + " Round 6: NaN samples in the bad channel itself (0 * NaN stays NaN in the engine's matrix product)."
+LEVEL_TEXT = LEVEL_TEXT + ' Round 7: the batches span the recording from its first sample to within two samples of its last.'
